@@ -16,6 +16,9 @@ EXPLANATION = (
     'shift-invert helpers) reads info() on the same object on every path and turns a non-success into std::invalid_argument '
     '(directly or through a returned flag that every caller tests and throws on); (D4) copy_data reads only the named triangle: '
     'the Lower arm reads (i, j) with i >= j, the other arm reads conj(j, i), and the two arms are selected by uplo == Lower. '
+    '(D5) the two pivot searches cover exactly the reduced column: the column scan starts at row k+1 and walks to the end of the '
+    'column, the row scan runs over j in [k, r) reading A[r, j], and the stored part of column r is scanned whenever r is not the '
+    'last column. '
     'Does NOT decide the residual bound of solve(), the agreement of lower/upper results to rounding, or the pivoting strategy.')
 ASSUMPTIONS = ['exact comparison with zero is the documented singularity test']
 
